@@ -73,6 +73,8 @@ def decAtom (j : Json) : R Atom := do
   | "lessThanOrEqualsToProperty" => return .propCmp .le p (← decPath (← fld j "other"))
   | "equalsToProperty" => return .propCmp .eq p (← decPath (← fld j "other"))
   | "disjointWithProperty" => return .propCmp .ne p (← decPath (← fld j "other"))
+  | "moreThanProperty" => return .propCmp .gt p (← decPath (← fld j "other"))
+  | "moreThanOrEqualsToProperty" => return .propCmp .ge p (← decPath (← fld j "other"))
   | "datatype" => return .datatype p (← fldStr j "dt")
   | "pattern" => return .pattern p (fldBoolD j "anchorStart" false) (fldBoolD j "anchorEnd" false) (← fldStr j "lit")
   | "uniqueValues" => return .uniqueValues p (fldBoolD j "uarg" true)
